@@ -125,7 +125,8 @@ def run(ctx):
     ctx.rule = ("histories = TLC -simulate behaviours of StorageMC (depth 14, getters interleaved) + seeded random histories "
                 "(16 calls, all template fields, NaN/inf/denormal/1e300 values, nested JSON attrs, delete-then-recreate, "
                 "writes after finish, unknown/deleted ids) + repeated overwrites of one key with values of every class "
-                "(finite, +-inf, NaN, denormal) run on 9 backend configurations; every trace validated by TLC "
+                "(finite, +-inf, NaN, denormal) + interleaved multi-study histories (ids differ from numbers; best trial of every "
+                "study after every completion) run on 9 backend configurations; every trace validated by TLC "
                 "against StorageTrace; distinct = distinct (config, call sequence) pairs")
     r = tlc.require_model("StorageMC", "StorageMC_q" if ctx.quick else "StorageMC_t", must_cover=MC_ACTIONS, timeout=3000)
     ctx.model(r, "StorageMC exhaustive")
@@ -134,12 +135,13 @@ def run(ctx):
     hs_tlc = histories_from_tlc(ctx, n_tlc_fast, 14)
     hs_rand = sg.histories(ctx.rng, n_fast, 16)
     hs_ow = sg.overwrite_histories(ctx.rng, 48 if ctx.quick else 500)
+    hs_ms = sg.multistudy_histories(ctx.rng, 48 if ctx.quick else 500)
     plan = []
     for c in sd.CONFIGS:
         if c in sd.SLOW:
-            plan.append((c, hs_rand[:n_slow] + hs_tlc[:n_tlc_slow] + hs_ow[: len(hs_ow) // 3]))
+            plan.append((c, hs_rand[:n_slow] + hs_tlc[:n_tlc_slow] + hs_ow[: len(hs_ow) // 3] + hs_ms[: len(hs_ms) // 3]))
         else:
-            plan.append((c, hs_rand + hs_tlc + hs_ow))
+            plan.append((c, hs_rand + hs_tlc + hs_ow + hs_ms))
         plan.append((c, [{"hid": "K6-nan-template-value", "ops": K6_OPS}]))
     traces = execute(plan)
     for i, t in enumerate(traces):
